@@ -11,6 +11,7 @@ pub fn run(id: &str, tier: &str, seed: u64) -> Result<String, String> {
         "bam-roundtrip" => bam_roundtrip(tier),
         "cram-roundtrip" => cram_roundtrip(tier),
         "index-query" => index_query(tier),
+        "util-conversions" => util_conversions(tier),
         "cram-decoders-hostile" => cram_decoders_hostile(tier, seed),
         n if n.starts_with("file-") && n.contains(':') => { let (t, h) = n[5..].split_once(':').unwrap(); let x: Vec<u8> = (0..h.len() / 2).map(|i| u8::from_str_radix(&h[2 * i..2 * i + 2], 16).unwrap()).collect(); let ts = crate::hostile::targets(); let t = ts.iter().find(|k| k.name == t).ok_or("unknown target")?; (t.run)(&x); Ok("\"ran\":1".into()) }
         "file-mutations" => crate::hostile::parent(tier, None),
@@ -818,4 +819,152 @@ fn index_query(_tier: &str) -> Result<String, String> {
     if queries < 200 && fails.is_empty() { return Err(format!("UNDECIDED: only {queries} queries ran")); }
     if fails.is_empty() { Ok(format!("\"queries\":{queries},\"features_per_file\":{}", feats.len() + 300)) }
     else { Err(format!("FAILURES\n{}", fails.values().cloned().collect::<Vec<_>>().join("\n"))) }
+}
+
+// ---------------------------------------------------------------------------------------------------------------------
+// C20 BOUNDED-NATIVE stand-in: for every (format, compression) the generic alignment / variant writer supports, what it
+// writes must be recognised by the generic reader (given NO hint) as that format and read back as the records written;
+// and piping the generic reader of each format into the generic writer of each other format must preserve every record
+// at the SAM / VCF data-model level.  Record sets: empty, header only, and a varied set.  Never counted as proved.
+fn util_conversions(_tier: &str) -> Result<String, String> {
+    use noodles_sam as sam;
+    use noodles_vcf as vcf;
+    use noodles_util::{alignment, variant};
+    use std::collections::BTreeMap;
+    let mut fails: BTreeMap<String, String> = BTreeMap::new();
+    let mut cases = 0u64;
+    std::panic::set_hook(Box::new(|_| {}));
+    // ------------------------------------------------ alignment ------------------------------------------------
+    let refseq: Vec<u8> = (0..2000).map(|i| b"ACGT"[((i as u64).wrapping_mul(2654435761) >> 7) as usize % 4]).collect();
+    let repo = noodles_fasta::Repository::new(vec![noodles_fasta::Record::new(noodles_fasta::record::Definition::new("sq0", None), noodles_fasta::record::Sequence::from(refseq.clone())), noodles_fasta::Record::new(noodles_fasta::record::Definition::new("sq1", None), noodles_fasta::record::Sequence::from(refseq.clone()))]);
+    let rb = |pos: usize, n: usize| String::from_utf8(refseq[pos - 1..pos - 1 + n].to_vec()).unwrap();
+    let header_text = "@HD\tVN:1.6\tSO:coordinate\n@SQ\tSN:sq0\tLN:2000\n@SQ\tSN:sq1\tLN:2000\n@RG\tID:rg0\n@PG\tID:pg\tPN:x\n@CO\tcomment\n";
+    let body = format!("a1\t99\tsq0\t5\t30\t20M\t=\t60\t75\t{}\t{}\tRG:Z:rg0\tNM:i:0\na2\t0\tsq0\t9\t31\t5M2I13M\t*\t0\t0\t{}GG{}\t{}\tXB:B:s,-1,300\na1\t147\tsq0\t60\t30\t20M\t=\t5\t-75\t{}\t{}\tRG:Z:rg0\na3\t65\tsq0\t100\t9\t10M\tsq1\t7\t0\t{}\t{}\na3\t129\tsq1\t7\t9\t10M\tsq0\t100\t0\t{}\t{}\tXA:A:c\nu1\t4\t*\t0\t0\t*\t*\t0\t0\tACGTN\t{}\tXZ:Z:x y\n",
+        rb(5, 20), "I".repeat(20), rb(9, 5), rb(14, 13), "H".repeat(20), rb(60, 20), "G".repeat(20), rb(100, 10), "F".repeat(10), rb(7, 10), "E".repeat(10), "DDDDD");
+    let header: sam::Header = header_text.parse().map_err(|e| format!("header: {e}"))?;
+    let all: Vec<sam::alignment::RecordBuf> = sam::io::Reader::new(body.as_bytes()).record_bufs(&header).collect::<Result<_, _>>().map_err(|e| format!("sam: {e}"))?;
+    let afmts: Vec<(&str, alignment::io::Format, Option<alignment::io::CompressionMethod>)> = vec![("SAM", alignment::io::Format::Sam, None), ("SAM.gz", alignment::io::Format::Sam, Some(alignment::io::CompressionMethod::Bgzf)), ("BAM", alignment::io::Format::Bam, Some(alignment::io::CompressionMethod::Bgzf)), ("BAM (uncompressed)", alignment::io::Format::Bam, None), ("CRAM", alignment::io::Format::Cram, None)];
+    let awrite = |fmt: alignment::io::Format, cm: Option<alignment::io::CompressionMethod>, recs: &[sam::alignment::RecordBuf], with_header: bool| -> Result<Vec<u8>, String> {
+        let mut buf = Vec::new();
+        { let mut w = alignment::io::writer::Builder::default().set_format(fmt).set_compression_method(cm).set_reference_sequence_repository(repo.clone()).build_from_writer(&mut buf).map_err(|e| format!("build writer: {e}"))?;
+          if with_header { w.write_header(&header).map_err(|e| format!("write_header: {e}"))?; for r in recs { w.write_record(&header, r).map_err(|e| format!("write_record: {e}"))?; } w.finish(&header).map_err(|e| format!("finish: {e}"))?; } }
+        Ok(buf)
+    };
+    let aread = |data: &[u8]| -> Result<(sam::Header, Vec<sam::alignment::RecordBuf>), String> {
+        let mut rd = alignment::io::reader::Builder::default().set_reference_sequence_repository(repo.clone()).build_from_reader(std::io::Cursor::new(data.to_vec())).map_err(|e| format!("the generic reader does not recognise the stream ({e})"))?;
+        let h = rd.read_header().map_err(|e| format!("the generic reader fails on the header ({e})"))?;
+        let mut out = Vec::new();
+        { // the record-by-record API must agree with the iterator
+          let mut rd2 = alignment::io::reader::Builder::default().set_reference_sequence_repository(repo.clone()).build_from_reader(std::io::Cursor::new(data.to_vec())).map_err(|e| format!("{e}"))?; let h2 = rd2.read_header().map_err(|e| format!("{e}"))?; let mut rec = alignment::Record::default(); let mut v2 = Vec::new();
+          while rd2.read_record(&h2, &mut rec).map_err(|e| format!("read_record fails on record {} ({e})", v2.len()))? != 0 { v2.push(sam::alignment::RecordBuf::try_from_alignment_record(&h2, &rec).map_err(|e| format!("read_record: record {} does not convert ({e})", v2.len()))?); }
+          let v1: Vec<sam::alignment::RecordBuf> = { let mut o = Vec::new(); for r in rd.records(&h) { let r = r.map_err(|e| format!("the generic reader fails on record {} ({e})", o.len()))?; o.push(sam::alignment::RecordBuf::try_from_alignment_record(&h, r.as_ref()).map_err(|e| format!("record {} does not convert ({e})", o.len()))?); } o };
+          if v1.len() != v2.len() { return Err(format!("read_record yields {} records, records() {}", v2.len(), v1.len())); }
+          for (i, (a, b)) in v1.iter().zip(v2.iter()).enumerate() { if a != b { return Err(format!("read_record and records() disagree on record {i}")); } }
+          return Ok((h, v1)); }
+        #[allow(unreachable_code)]
+        for r in rd.records(&h) { let r = r.map_err(|e| format!("the generic reader fails on record {} ({e})", out.len()))?; out.push(sam::alignment::RecordBuf::try_from_alignment_record(&h, r.as_ref()).map_err(|e| format!("record {} does not convert ({e})", out.len()))?); }
+        Ok((h, out))
+    };
+    let adiff = |a: &sam::alignment::RecordBuf, b: &sam::alignment::RecordBuf, cram: bool| -> Vec<&'static str> {
+        let mut d = Vec::new();
+        if a.name() != b.name() { d.push("name"); } if a.flags() != b.flags() { d.push("flags"); } if a.reference_sequence_id() != b.reference_sequence_id() { d.push("reference"); } if a.alignment_start() != b.alignment_start() { d.push("position"); }
+        if a.mapping_quality() != b.mapping_quality() && !(cram && a.flags().is_unmapped()) { d.push("mapq"); } if a.cigar() != b.cigar() { d.push("cigar"); }
+        if a.mate_reference_sequence_id() != b.mate_reference_sequence_id() { d.push("mate reference"); } if a.mate_alignment_start() != b.mate_alignment_start() { d.push("mate position"); } if a.template_length() != b.template_length() && !(cram && a.reference_sequence_id() != a.mate_reference_sequence_id()) /* F42, reported by bounded-cram-roundtrip */ { d.push("template length"); }
+        if !a.sequence().as_ref().eq_ignore_ascii_case(b.sequence().as_ref()) { d.push("sequence"); } if a.quality_scores() != b.quality_scores() { d.push("quality scores"); }
+        let tags = |r: &sam::alignment::RecordBuf| { use sam::alignment::record_buf::data::field::{value::Array, Value}; let mut v: Vec<String> = r.data().iter().map(|(t, v)| match v { Value::Array(Array::Int8(x)) => format!("{t:?}=B{:?}", x.iter().map(|&n| i64::from(n)).collect::<Vec<_>>()), Value::Array(Array::UInt8(x)) => format!("{t:?}=B{:?}", x.iter().map(|&n| i64::from(n)).collect::<Vec<_>>()), Value::Array(Array::Int16(x)) => format!("{t:?}=B{:?}", x.iter().map(|&n| i64::from(n)).collect::<Vec<_>>()), Value::Array(Array::UInt16(x)) => format!("{t:?}=B{:?}", x.iter().map(|&n| i64::from(n)).collect::<Vec<_>>()), Value::Array(Array::Int32(x)) => format!("{t:?}=B{:?}", x.iter().map(|&n| i64::from(n)).collect::<Vec<_>>()), Value::Array(Array::UInt32(x)) => format!("{t:?}=B{:?}", x.iter().map(|&n| i64::from(n)).collect::<Vec<_>>()), v => match v.as_int() { Some(n) => format!("{t:?}=i{n}"), None => format!("{t:?}={v:?}") } }).collect(); v.sort(); v };
+        if tags(a) != tags(b) { d.push("data"); }
+        d
+    };
+    let detect = |data: &[u8]| -> &'static str { if data.starts_with(b"BAM\x01") { "BAM (uncompressed)" } else if data.starts_with(b"CRAM") { "CRAM" } else if data.starts_with(&[0x1f, 0x8b]) { "bgzf" } else { "SAM" } };
+    let sets: Vec<(&str, Vec<sam::alignment::RecordBuf>, bool)> = vec![("varied set", all.clone(), true), ("header only", vec![], true)];
+    for (fname, fmt, cm) in &afmts { for (sname, recs, with_header) in &sets {
+        cases += 1;
+        let r = std::panic::catch_unwind(std::panic::AssertUnwindSafe(|| -> Result<(), String> {
+            let data = awrite(*fmt, *cm, recs, *with_header).map_err(|e| format!("the generic writer fails ({e})"))?;
+            let want = match *fname { "SAM.gz" | "BAM" => "bgzf", x => x };
+            if detect(&data) != want { return Err(format!("the stream starts like {} not {want}", detect(&data))); }
+            let (_, back) = aread(&data)?;
+            if back.len() != recs.len() { return Err(format!("{} records read back, {} written", back.len(), recs.len())); }
+            for (i, (a, b)) in recs.iter().zip(back.iter()).enumerate() { let d = adiff(a, b, *fname == "CRAM"); if !d.is_empty() { return Err(format!("record {i} ({:?}) reads back different in: {}", a.name().map(|n| n.to_string()), d.join(", "))); } }
+            Ok(())
+        }));
+        match r { Err(_) => { fails.entry(format!("a {fname} {sname} panic")).or_insert_with(|| format!("generic alignment io [{fname}, {sname}]: PANICS")); } Ok(Err(e)) => { fails.entry(format!("a {fname} {sname} {}", &e[..e.len().min(30)])).or_insert_with(|| format!("generic alignment io [{fname}, {sname}]: {e}")); } Ok(Ok(())) => {} }
+    } }
+    // conversions: reader of A piped into writer of B
+    for by_record in [false, true] { for (an, af, ac) in &afmts { for (bn, bf, bc) in &afmts { if an == bn { continue; }
+        let api = if by_record { "read_record" } else { "records()" };
+        cases += 1;
+        let r = std::panic::catch_unwind(std::panic::AssertUnwindSafe(|| -> Result<(), String> {
+            let src = awrite(*af, *ac, &all, true).map_err(|e| format!("writing the source fails ({e})"))?;
+            let mut rd = alignment::io::reader::Builder::default().set_reference_sequence_repository(repo.clone()).build_from_reader(std::io::Cursor::new(src)).map_err(|e| format!("source not recognised ({e})"))?;
+            let h = rd.read_header().map_err(|e| format!("source header ({e})"))?;
+            let mut buf = Vec::new();
+            { let mut w = alignment::io::writer::Builder::default().set_format(*bf).set_compression_method(*bc).set_reference_sequence_repository(repo.clone()).build_from_writer(&mut buf).map_err(|e| format!("build writer: {e}"))?;
+              w.write_header(&h).map_err(|e| format!("write_header: {e}"))?;
+              if by_record { let mut rec = alignment::Record::default(); while rd.read_record(&h, &mut rec).map_err(|e| format!("reading the source ({e})"))? != 0 { w.write_record(&h, &rec).map_err(|e| format!("writing a record of the source ({e})"))?; } }
+              else { for r in rd.records(&h) { let r = r.map_err(|e| format!("reading the source ({e})"))?; w.write_record(&h, &r).map_err(|e| format!("writing a record of the source ({e})"))?; } }
+              w.finish(&h).map_err(|e| format!("finish: {e}"))?; }
+            let (_, back) = aread(&buf)?;
+            if back.len() != all.len() { return Err(format!("{} records after the conversion, {} before", back.len(), all.len())); }
+            for (i, (a, b)) in all.iter().zip(back.iter()).enumerate() { let d = adiff(a, b, *an == "CRAM" || *bn == "CRAM"); if !d.is_empty() { return Err(format!("record {i} ({:?}) differs after the conversion in: {}", a.name().map(|n| n.to_string()), d.join(", "))); } }
+            Ok(())
+        }));
+        match r { Err(_) => { fails.entry(format!("conv {an}->{bn} {api} panic")).or_insert_with(|| format!("alignment conversion [{an} -> {bn}, {api}]: PANICS")); } Ok(Err(e)) => { fails.entry(format!("conv {an}->{bn} {api} {}", &e[..e.len().min(30)])).or_insert_with(|| format!("alignment conversion [{an} -> {bn}, {api}]: {e}")); } Ok(Ok(())) => {} }
+    } } }
+    // ------------------------------------------------ variant ------------------------------------------------
+    let vtext = "##fileformat=VCFv4.3\n##INFO=<ID=DP,Number=1,Type=Integer,Description=\"d\">\n##INFO=<ID=AF,Number=A,Type=Float,Description=\"a\">\n##INFO=<ID=DB,Number=0,Type=Flag,Description=\"f\">\n##INFO=<ID=XS,Number=1,Type=String,Description=\"s\">\n##FILTER=<ID=PASS,Description=\"All filters passed\">\n##FILTER=<ID=q10,Description=\"q\">\n##FORMAT=<ID=GT,Number=1,Type=String,Description=\"g\">\n##FORMAT=<ID=DP,Number=1,Type=Integer,Description=\"d\">\n##FORMAT=<ID=XA,Number=.,Type=Integer,Description=\"a\">\n##contig=<ID=sq0,length=2000>\n##contig=<ID=sq1,length=2000>\n#CHROM\tPOS\tID\tREF\tALT\tQUAL\tFILTER\tINFO\tFORMAT\ts0\ts1\nsq0\t10\trs1;rs2\tA\tC,G\t30.5\tPASS\tDP=14;AF=0.5,0.25;DB;XS=%2541 50%25 a%3Bb%2C%3D\tGT:DP:XA\t0|1:10:5,3,2\t1/2:.:70000\nsq0\t20\t.\tAC\tA\t.\tq10\t.\tGT\t./.\t0\nsq1\t5\t.\tN\t<DEL>\t1\t.\tDP=-200\tDP\t1\t-200\n";
+    let vheader = vcf::io::Reader::new(vtext.as_bytes()).read_header().map_err(|e| format!("vcf header: {e}"))?;
+    let vall: Vec<vcf::variant::RecordBuf> = { let mut rd = vcf::io::Reader::new(vtext.as_bytes()); let h = rd.read_header().map_err(|e| format!("{e}"))?; rd.record_bufs(&h).collect::<Result<_, _>>().map_err(|e| format!("vcf: {e}"))? };
+    let vfmts: Vec<(&str, variant::io::Format, Option<variant::io::CompressionMethod>)> = vec![("VCF", variant::io::Format::Vcf, None), ("VCF.gz", variant::io::Format::Vcf, Some(variant::io::CompressionMethod::Bgzf)), ("BCF", variant::io::Format::Bcf, Some(variant::io::CompressionMethod::Bgzf)), ("BCF (uncompressed)", variant::io::Format::Bcf, None)];
+    let vnorm = |r: &vcf::variant::RecordBuf| -> vcf::variant::RecordBuf { let mut r = r.clone(); let keys = r.samples().keys().clone(); let n = keys.as_ref().len(); let vals: Vec<Vec<Option<vcf::variant::record_buf::samples::sample::Value>>> = r.samples().values().map(|s| { let mut v = s.values().to_vec(); v.resize(n, None); v }).collect(); *r.samples_mut() = vcf::variant::record_buf::Samples::new(keys, vals); r };
+    let vwrite = |fmt: variant::io::Format, cm: Option<variant::io::CompressionMethod>, h: &vcf::Header, recs: &mut dyn Iterator<Item = Result<Box<dyn vcf::variant::Record>, String>>| -> Result<Vec<u8>, String> {
+        let mut buf = Vec::new();
+        { let mut w = variant::io::writer::Builder::default().set_format(fmt).set_compression_method(cm).build_from_writer(&mut buf); w.write_header(h).map_err(|e| format!("write_header: {e}"))?; for r in recs { let r = r?; w.write_record(h, r.as_ref()).map_err(|e| format!("write_record: {e}"))?; } }
+        Ok(buf)
+    };
+    let vread = |data: &[u8]| -> Result<(vcf::Header, Vec<vcf::variant::RecordBuf>), String> {
+        let mut rd = variant::io::reader::Builder::default().build_from_reader(std::io::Cursor::new(data.to_vec())).map_err(|e| format!("the generic reader does not recognise the stream ({e})"))?;
+        let h = rd.read_header().map_err(|e| format!("the generic reader fails on the header ({e})"))?;
+        { let mut rd2 = variant::io::reader::Builder::default().build_from_reader(std::io::Cursor::new(data.to_vec())).map_err(|e| format!("{e}"))?; let h2 = rd2.read_header().map_err(|e| format!("{e}"))?; let mut rec = variant::Record::default(); let mut v2 = Vec::new();
+          while rd2.read_record(&mut rec).map_err(|e| format!("read_record fails on record {} ({e})", v2.len()))? != 0 { v2.push(vcf::variant::RecordBuf::try_from_variant_record(&h2, &rec).map_err(|e| format!("read_record: record {} does not convert ({e})", v2.len()))?); }
+          let mut v1 = Vec::new(); for r in rd.records(&h) { let r = r.map_err(|e| format!("the generic reader fails on record {} ({e})", v1.len()))?; v1.push(vcf::variant::RecordBuf::try_from_variant_record(&h, r.as_ref()).map_err(|e| format!("record {} does not convert ({e})", v1.len()))?); }
+          if v1.len() != v2.len() { return Err(format!("read_record yields {} records, records() {}", v2.len(), v1.len())); }
+          for (i, (a, b)) in v1.iter().zip(v2.iter()).enumerate() { if a != b { return Err(format!("read_record and records() disagree on record {i}")); } }
+          return Ok((h, v1)); }
+        #[allow(unreachable_code)]
+        let mut out = Vec::new();
+        for r in rd.records(&h) { let r = r.map_err(|e| format!("the generic reader fails on record {} ({e})", out.len()))?; out.push(vcf::variant::RecordBuf::try_from_variant_record(&h, r.as_ref()).map_err(|e| format!("record {} does not convert ({e})", out.len()))?); }
+        Ok((h, out))
+    };
+    let vdetect = |data: &[u8]| -> &'static str { if data.starts_with(b"BCF") { "BCF (uncompressed)" } else if data.starts_with(&[0x1f, 0x8b]) { "bgzf" } else { "VCF" } };
+    for (fname, fmt, cm) in &vfmts { for (sname, recs) in [("varied set", vall.clone()), ("header only", vec![])] {
+        cases += 1;
+        let r = std::panic::catch_unwind(std::panic::AssertUnwindSafe(|| -> Result<(), String> {
+            let data = vwrite(*fmt, *cm, &vheader, &mut recs.iter().map(|r| Ok(Box::new(r.clone()) as Box<dyn vcf::variant::Record>))).map_err(|e| format!("the generic writer fails ({e})"))?;
+            let want = match *fname { "VCF.gz" | "BCF" => "bgzf", x => x };
+            if vdetect(&data) != want { return Err(format!("the stream starts like {} not {want}", vdetect(&data))); }
+            let (_, back) = vread(&data)?;
+            if back.len() != recs.len() { return Err(format!("{} records read back, {} written", back.len(), recs.len())); }
+            for (i, (a, b)) in recs.iter().zip(back.iter()).enumerate() { if vnorm(a) != vnorm(b) { return Err(format!("record {i} reads back different")); } }
+            Ok(())
+        }));
+        match r { Err(_) => { fails.entry(format!("v {fname} {sname} panic")).or_insert_with(|| format!("generic variant io [{fname}, {sname}]: PANICS")); } Ok(Err(e)) => { fails.entry(format!("v {fname} {sname} {}", &e[..e.len().min(30)])).or_insert_with(|| format!("generic variant io [{fname}, {sname}]: {e}")); } Ok(Ok(())) => {} }
+    } }
+    for by_record in [false, true] { for (an, af, ac) in &vfmts { for (bn, bf, bc) in &vfmts { if an == bn { continue; }
+        let api = if by_record { "read_record" } else { "records()" };
+        cases += 1;
+        let r = std::panic::catch_unwind(std::panic::AssertUnwindSafe(|| -> Result<(), String> {
+            let src = vwrite(*af, *ac, &vheader, &mut vall.iter().map(|r| Ok(Box::new(r.clone()) as Box<dyn vcf::variant::Record>))).map_err(|e| format!("writing the source fails ({e})"))?;
+            let mut rd = variant::io::reader::Builder::default().build_from_reader(std::io::Cursor::new(src)).map_err(|e| format!("source not recognised ({e})"))?;
+            let h = rd.read_header().map_err(|e| format!("source header ({e})"))?;
+            let buf = if by_record { let mut v: Vec<Result<Box<dyn vcf::variant::Record>, String>> = Vec::new(); loop { let mut rec = variant::Record::default(); match rd.read_record(&mut rec) { Ok(0) => break, Ok(_) => v.push(Ok(Box::new(rec))), Err(e) => { v.push(Err(format!("reading the source ({e})"))); break; } } } vwrite(*bf, *bc, &h, &mut v.into_iter()) } else { vwrite(*bf, *bc, &h, &mut rd.records(&h).map(|r| r.map_err(|e| format!("reading the source ({e})")))) }.map_err(|e| format!("the conversion fails ({e})"))?;
+            let (_, back) = vread(&buf)?;
+            if back.len() != vall.len() { return Err(format!("{} records after the conversion, {} before", back.len(), vall.len())); }
+            for (i, (a, b)) in vall.iter().zip(back.iter()).enumerate() { if vnorm(a) != vnorm(b) { return Err(format!("record {i} differs after the conversion")); } }
+            Ok(())
+        }));
+        match r { Err(_) => { fails.entry(format!("vconv {an}->{bn} {api} panic")).or_insert_with(|| format!("variant conversion [{an} -> {bn}, {api}]: PANICS")); } Ok(Err(e)) => { fails.entry(format!("vconv {an}->{bn} {api} {}", &e[..e.len().min(30)])).or_insert_with(|| format!("variant conversion [{an} -> {bn}, {api}]: {e}")); } Ok(Ok(())) => {} }
+    } } }
+    let _ = std::panic::take_hook();
+    if fails.is_empty() { Ok(format!("\"cases\":{cases}")) } else { Err(format!("FAILURES\n{}", fails.values().cloned().collect::<Vec<_>>().join("\n"))) }
 }
